@@ -31,6 +31,9 @@ enum Inject {
     Cycles { at: u64, gap: u64, n: u32 },
     /// crash t0 alone, then (gap steps later) crash every target by regex while t0 is already down
     CrashOneThenAll { at: u64, gap: u64 },
+    /// bounce (the old incarnation's streams die), then crash `gap` steps later: what the peers
+    /// still had in flight towards the old incarnation reaches a host that is down
+    BounceThenCrash { at: u64, gap: u64 },
 }
 
 #[derive(Clone, Debug)]
@@ -648,6 +651,10 @@ fn execute(s: &Scn) -> Exec {
                 plan.push((*at, 2));
                 plan.push((at + gap, 0));
             }
+            Inject::BounceThenCrash { at, gap } => {
+                plan.push((*at, 1));
+                plan.push((at + gap, 0));
+            }
         }
         let targets: Vec<usize> = (0..nt).collect();
         let mut panic = None;
@@ -730,6 +737,7 @@ fn check(s: &Scn, ex: &Exec, twin_iso: &[String], base_steps: u64, out: &mut Sce
         Inject::BounceOnly { .. } => "bounce-only",
         Inject::Cycles { .. } => "cycles",
         Inject::CrashOneThenAll { .. } => "crash-one-then-regex",
+        Inject::BounceThenCrash { .. } => "bounce-then-crash",
     };
     if let Some(p) = &ex.panic {
         out.violate("panic", format!("C04|panic|{kind}"), format!("simulation panicked / failed: {p}"), desc.clone());
@@ -1200,7 +1208,8 @@ fn workload_scenarios(s0: &Scn, r: &mut Rng, all_points: bool) -> Vec<Scn> {
     let points: Vec<u64> = if all_points { (1..=n).collect() } else { (1..=n).filter(|_| r.chance(0.45)).collect() };
     for c in points {
         let mut s = s0.clone();
-        s.inject = match r.below(7) {
+        s.inject = match r.below(8) {
+            7 => Inject::BounceThenCrash { at: c, gap: r.range(0, 4) },
             0 => Inject::Crash { at: c, bounce_after: None },
             1 => Inject::Crash { at: c, bounce_after: Some(0) },
             2 => Inject::Crash { at: c, bounce_after: Some(1) },
@@ -1303,7 +1312,7 @@ pub fn run(ctx: &Ctx) -> ! {
 fn fin() -> Finish<'static> {
     Finish {
         level: "fault_enumeration",
-        rule: "workloads (seeded: tick, fixed latency, 3-6 peer streams with different connect times / think times, accept gap so SYNs queue, UDP unicast+multicast pings, background ticker + fs + io_uring tasks on the target, a window-limited bulk download with a slow reader, isolated pair c<->d with TCP/UDP/fs/clock samples, optionally two targets crashed by regex) x an injection after every step of the run (thorough: every step; quick: ~45% of the steps) drawn from {crash, crash+bounce after 0/1/2-6 steps, bounce without crash, two crash/bounce cycles}; evaluations = workloads, executions counted separately; non-trivial = workload with >=5 injection points; distinct = digest of (injections, log sizes)",
+        rule: "workloads (seeded: tick, fixed latency, 3-6 peer streams with different connect times / think times, accept gap so SYNs queue, UDP unicast+multicast pings, background ticker + fs + io_uring tasks on the target, a window-limited bulk download with a slow reader, isolated pair c<->d with TCP/UDP/fs/clock samples, optionally two targets crashed by regex) x an injection after every step of the run (thorough: every step; quick: ~45% of the steps) drawn from {crash, crash+bounce after 0/1/2-6 steps, bounce without crash, bounce then crash 0-4 steps later, two crash/bounce cycles}; evaluations = workloads, executions counted separately; non-trivial = workload with >=5 injection points; distinct = digest of (injections, log sizes)",
         assumptions: vec![
             "fixed latency and fixed node order so that the shared world rng cannot legitimately couple the isolated pair to the crashed host (twin comparison)".into(),
             "hosts whose main future already returned are never crashed".into(),
